@@ -248,8 +248,17 @@ def tr : P String := do
   let mut hypS := (L.startsWith "c-" && ε == 0) || L == "sarsal"
   let mut nxt : List ((Nat × Nat) × Nat) := []
   let mut starSteps := 0
+  -- clause 1 at λ = 0 (theorems control|eval|sarsal_lambda0_bounded): zero start, γ < 1, α ∈ (0,1], ε ∈ [0,1], target rows
+  -- are distributions; the interval is the hull of the rewards seen so far
+  let isDistRows (rows : Rows) : Bool := rows.all (fun r => r.all (fun x => decide (0 ≤ x)) && r.foldl (· + ·) 0 == 1)
+  let bndClause := lamFamily && lam == 0 && init.all (fun r => r.all (· == 0)) && decide (0 ≤ γ) && decide (γ < 1)
+    && decide (0 < α) && decide (α ≤ 1) && decide (0 ≤ ε) && decide (ε ≤ 1) && (!(L.startsWith "e-") || isDistRows πtR)
+  let mut rlo : Rat := 0
+  let mut rhi : Rat := 0
   for k in [0:n] do
     let s ← P.nat; let a ← P.nat; let s1 ← P.nat; let a1 ← P.nat; let r ← P.q
+    if r < rlo then rlo := r
+    if rhi < r then rhi := r
     let e : StepIn := ⟨s, a, s1, a1, r, α, 0⟩
     let outT ← traces
     let out ← tab S A
@@ -285,6 +294,13 @@ def tr : P String := do
     if lamFamily && !(decide (tol ≤ 1)) then
       v := v.failIf (!(tracesInRange tol outT)) s!"{if L == "sarsal" then "SARSAL" else "OffPolicyBase"} trace_below_cutoff_above_one step {k} learner={comp} traces={showTraces outT} tol={ratStr tol}"
     v := v.failIf (!(tracesNodup outT)) s!"{comp} trace_duplicate step {k} traces={showTraces outT}"
+    if bndClause then
+      let lo := loC rlo γ
+      let hi := hiC rhi γ
+      let slack := tolRun * (1 + absQ lo + absQ hi)
+      match firstOutside lo hi slack out with
+      | some (s', a', x) => v := v.failIf true s!"{comp} td_out_of_bounds step {k} entry ({s'},{a'}) = {ratStr x} outside [{ratStr lo},{ratStr hi}] (lambda = 0)"
+      | none => pure ()
     -- (L3) λ = 0: exactly the one-step expected backup of the target policy, nothing else moves
     if lamFamily && lam == 0 then
       let exp := toRows S A (oneStep L γ α ε A πt qp e)
@@ -311,6 +327,7 @@ def tr : P String := do
   if ill then return "skip ill_conditioned"
   if n == 0 then v := { v with tag := v.tag ++ " trivial" }
   if starSteps > 0 && starSteps == n then v := { v with tag := v.tag ++ " qstar" }
+  if bndClause then v := { v with tag := v.tag ++ " bounds" }
   v := { v with tag := v.tag ++ s!" len{if maxLen > 3 then 4 else maxLen}" }
   return v.render
 
